@@ -15,6 +15,6 @@ EXTRA = {
 
 
 def run(tier, seed, replay=None):
-    return generic.run_generic(PROP, MODULES, "poll-judge", tier, seed, replay, generic.augment_c15, 1500, 30000,
+    return generic.run_generic(PROP, MODULES, "poll-judge", tier, seed, replay, generic.augment_c15, 3000, 40000,
                                "event histories of every modelled protocol (providers in vlib/protos.py) with `poll` followed by a socket-level "
                                "non-blocking receive or send inserted at random quiescent points; judged by Spec/Generic.lean pollStep", extra=EXTRA)
